@@ -63,3 +63,29 @@ def c17_dim_names_reset(v):
     if d.get('problems') != ['duplicate names with ids under default naming']:
         return False
     return bool(f.get('dim_names_reset_pending')) and f.get('n_leaves', 0) > 1
+
+
+def c15_cam_sampler(v):
+    """same defect as KF-C06-cam-sampler, observed through PredictiveModel"""
+    if v['monitor'] != 'pit_ks':
+        return False
+    if not v['mechanism'].startswith(
+            'ks_reject:ConstantAndMultiplicativeGaussianErrorModel'):
+        return False
+    return bool(v.get('detail', {}).get('matches_quadrature_model'))
+
+
+def c15_heterogeneous_predictive(v):
+    """
+    PopulationPredictiveModel with a heterogeneous part:
+    HeterogeneousModel.compute_individual_parameters returns its n_ids
+    parameter rows instead of the sampled individuals, so sampling a number of
+    patients different from the number of rows raises a broadcast error.
+    """
+    f = v.get('features', {})
+    if 'H' not in (f.get('kinds') or []):
+        return False
+    if f.get('n_samples') == f.get('n_heterogeneous_rows'):
+        return False
+    return v['mechanism'].startswith(
+        'ValueError@chi/_population_models.py:compute_individual_parameters')
